@@ -32,7 +32,13 @@ None == <<>>
 Classes == {"b", "a", "d"}
 Cells == UNION {[1..n -> Classes] : n \in 0..MaxCell}
 
-VARIABLES fld,      \* [fmt, emptyAllowed, length (declaration), restricted (BOOLEAN: an allowed-characters range is declared)]
+\* how the data format restricts characters: "none" -- no allowed-characters range; "range" -- one item, the
+\* disallowed character lies above everything allowed; "gaps" -- several items, the disallowed character lies
+\* between allowed ones (its code point is above the blank's and below the other allowed character's)
+Restrictions == {"none", "range", "gaps"}
+Restricted(f) == f.restricted # "none"
+
+VARIABLES fld,      \* [fmt, emptyAllowed, length (declaration), restricted (one of Restrictions)]
           cell, hook,
           stage,    \* "chars" | "empty" | "length" | "strip" | "value" | "done"
           value,    \* the cell as the later stages see it (stripped for fixed-width data)
@@ -52,9 +58,9 @@ Stripped(s) == StripRight(StripLeft(s))
 HasDisallowed(s) == \E i \in 1..Len(s) : s[i] = "d"
 
 Fields == {[fmt |-> f, emptyAllowed |-> e, length |-> l, restricted |-> r] :
-             f \in Formats \ {"fixed"}, e \in BOOLEAN, l \in LengthDecls, r \in BOOLEAN}
+             f \in Formats \ {"fixed"}, e \in BOOLEAN, l \in LengthDecls, r \in Restrictions}
      \cup {[fmt |-> "fixed", emptyAllowed |-> e, length |-> <<<<<<w>>, <<w>>>>>>, restricted |-> r] :
-             e \in BOOLEAN, w \in FixedWidths, r \in BOOLEAN}
+             e \in BOOLEAN, w \in FixedWidths, r \in Restrictions}
 
 Init == /\ fld \in Fields /\ cell \in Cells /\ hook \in BOOLEAN
         /\ stage = "chars" /\ value = cell /\ outcome = <<>> /\ hookCalls = 0
@@ -65,7 +71,7 @@ Keep == UNCHANGED <<fld, cell, hook>>
 \* fields.py:155-181
 GuardChars ==
   /\ stage = "chars" /\ Keep /\ UNCHANGED <<value, hookCalls>>
-  /\ IF fld.restricted /\ HasDisallowed(cell) THEN Reject("character")
+  /\ IF Restricted(fld) /\ HasDisallowed(cell) THEN Reject("character")
      ELSE stage' = (IF StripBeforeEmptyGuard THEN "strip" ELSE "empty") /\ UNCHANGED outcome
 \* fields.py:252-255 (its place in the pipeline is what the switch decides)
 Strip ==
@@ -107,10 +113,10 @@ GuardsHold ==
          /\ (outcome[1] = "accept") <=> fld.emptyAllowed
          /\ outcome[1] = "accept" => outcome[2] = "empty"
          /\ hookCalls = 0                                              \* the rule is not consulted
-    /\ (~IsEmpty(fld, cell) /\ (LengthOutside(fld, cell) \/ (fld.restricted /\ HasDisallowed(cell)))) =>
+    /\ (~IsEmpty(fld, cell) /\ (LengthOutside(fld, cell) \/ (Restricted(fld) /\ HasDisallowed(cell)))) =>
          /\ outcome[1] = "reject"                                      \* whatever the type and rule would say
          /\ hookCalls = 0
-    /\ (~IsEmpty(fld, cell) /\ ~LengthOutside(fld, cell) /\ ~(fld.restricted /\ HasDisallowed(cell))) =>
+    /\ (~IsEmpty(fld, cell) /\ ~LengthOutside(fld, cell) /\ ~(Restricted(fld) /\ HasDisallowed(cell))) =>
          /\ hookCalls = 1
          /\ (outcome[1] = "accept") <=> hook
          /\ outcome[1] = "accept" => outcome[2] = "native"
